@@ -23,7 +23,7 @@ let show_lines (ls : z list list) = String.concat " | " (List.map show_ints ls)
 
 type hist = { hid : int; cfg : config; mutable evs : event list (* reversed while parsing *) }
 
-let props : (string * (Model.tproj * (config -> trace -> Model.violation list))) list = Props.table
+let props : (string * (Model.tproj * (config -> trace -> Model.violation list) * Model.skipper)) list = Props.table
 
 let fail_decode what line = Printf.printf "DECODEFAIL %s: %s\n" what line; exit 2
 
@@ -114,12 +114,12 @@ let () =
   end;
   let file = Sys.argv.(2) in
   let maxshow = if Array.length Sys.argv > 3 then int_of_string Sys.argv.(3) else 3 in
-  let (pi, pred) =
+  let (pi, pred, sk) =
     try List.assoc prop props with Not_found -> (prerr_endline ("unknown property " ^ prop); exit 2) in
   let n_ev = iter_file file (fun h ->
       incr n_hist;
       let impl = h.evs in
-      let mm = diff_trace_t h.cfg pi impl in
+      let mm = diff_trace_t h.cfg pi sk impl in
       let pv = pred h.cfg impl in
       (* diagnostic only: the predicate on the model's own trace (empty by the theorems) *)
       let pvm = pred h.cfg (run h.cfg (List.map (fun e -> e.ev_op) impl)) in
